@@ -237,6 +237,31 @@ mut("iter_unbound_lifetime", L, """    pub fn iter(&self) -> Iter<'_, T> {
     }""", ["C15:SIG", "C15:WITNESS"])
 mut("new_not_const", L, """    pub const fn new() -> Self {""", """    pub fn new() -> Self {""", ["C15:CONST", "C15:WITNESS"])
 
+mut("kind_slice_by_len", L, """        let (front, back) = if start < end {
+            (&self.items[start..end], &[][..])
+        } else {
+            let (back, front) = self.items.split_at(start);
+            (front, &back[..end])
+        };
+
+        // SAFETY: The elements in these slices are guaranteed to be initialized
+        unsafe { (slice_assume_init_ref(front), slice_assume_init_ref(back)) }""", """        let (front, back) = if start < end {
+            (&self.items[..self.size], &[][..])
+        } else {
+            let (back, front) = self.items.split_at(start);
+            (front, &back[..end])
+        };
+
+        // SAFETY: The elements in these slices are guaranteed to be initialized
+        unsafe { (slice_assume_init_ref(front), slice_assume_init_ref(back)) }""", ["C07:KIND1", "C04:KIND1"])
+mut("kind_cmp_start_for_size", L, """    pub fn truncate_front(&mut self, len: usize) {
+        if N == 0 || len >= self.size {""", """    pub fn truncate_front(&mut self, len: usize) {
+        if N == 0 || len >= self.start {""", ["C04:KIND1"])
+mut("kind_swap_phys_to_get", L, """        self.swap(index, self.size - 1);
+        self.pop_back()""", """        let last = add_mod(self.start, self.size - 1, N);
+        self.swap(index, last);
+        self.pop_back()""", ["C04:KIND1", "C20:KIND1"])
+
 def sh(cmd, cwd=None):
     e = dict(os.environ); e["CARGO_NET_OFFLINE"] = "true"; e["CARGO_TARGET_DIR"] = "/tmp/mm-target"
     p = subprocess.run(cmd, shell=True, cwd=cwd, env=e, capture_output=True, text=True)
